@@ -90,22 +90,33 @@ pub fn c06(case: &Case, obs: &mut Obs, prec: Prec) -> Result<(), Failure> {
             }
         }
     }
-    // empty operand (bounding-box shortcut): rings handed back bit-identically
+    // empty operand (bounding-box shortcut): rings handed back bit-identically, through every trait implementation
+    // the part counts allow (an empty operand can only be a MultiPolygon)
     let e = empty();
-    for (name, r, want) in [
-        ("A union empty", run(prec, a, &e, Operation::Union)?, a.clone()),
-        ("empty union A", run(prec, &e, a, Operation::Union)?, a.clone()),
-        ("A minus empty", run(prec, a, &e, Operation::Difference)?, a.clone()),
-        ("A xor empty", run(prec, a, &e, Operation::Xor)?, a.clone()),
-        ("empty xor A", run(prec, &e, a, Operation::Xor)?, a.clone()),
-        ("A intersect empty", run(prec, a, &e, Operation::Intersection)?, empty()),
-        ("empty intersect A", run(prec, &e, a, Operation::Intersection)?, empty()),
-        ("empty minus A", run(prec, &e, a, Operation::Difference)?, empty()),
-        ("empty union empty", run(prec, &e, &e, Operation::Union)?, empty()),
-    ] {
-        if r != want {
-            return Err(Failure::new("empty-operand", format!("{} = {} expected {}", name, mp_to_text(&r), mp_to_text(&want))));
+    let runp = |pairing: Pairing, x: &MP, y: &MP, op: Operation| run_op(prec, pairing, x, y, op).map_err(|p| panic_failure(op_name(op), &p));
+    for pairing in PAIRINGS {
+        for (lhs_empty, name, op, want) in [
+            (false, "A union empty", Operation::Union, a.clone()),
+            (true, "empty union A", Operation::Union, a.clone()),
+            (false, "A minus empty", Operation::Difference, a.clone()),
+            (false, "A xor empty", Operation::Xor, a.clone()),
+            (true, "empty xor A", Operation::Xor, a.clone()),
+            (false, "A intersect empty", Operation::Intersection, empty()),
+            (true, "empty intersect A", Operation::Intersection, empty()),
+            (true, "empty minus A", Operation::Difference, empty()),
+        ] {
+            let (x, y) = if lhs_empty { (&e, a) } else { (a, &e) };
+            if !pairing.allowed(x, y) {
+                continue;
+            }
+            let r = runp(pairing, x, y, op)?;
+            if r != want {
+                return Err(Failure::new("empty-operand", format!("{} ({}) = {} expected {}", name, pairing.name(), mp_to_text(&r), mp_to_text(&want))));
+            }
         }
+    }
+    if run(prec, &e, &e, Operation::Union)? != empty() {
+        return Err(Failure::new("empty-operand", "empty union empty is not empty".to_string()));
     }
     // disjoint boxes: move B strictly to the right of / above A
     if let (Some(ba), Some(bb)) = (bbox_of(&ea), bbox_of(&eb)) {
